@@ -168,18 +168,18 @@ theorem tape_leaf_all (c : Cfg) (tape : List TTok) (f : Nat) (core : Ty) (h : No
     (cases l with
      | id n =>
        simp only [BLeaf.ttok] at ht
-       simp only [tVal, ht, visitKey, valCoreG, binSem, valLeaf, leafPrim, Except.map, enumVal]
+       simp only [tVal, ht, visitKey, valCoreG, binSem, valLeaf, u16Leaf, u16Tok, leafPrim, Except.map, enumVal]
        try (cases idPrim c n <;> simp [Except.map])
      | _ =>
        simp only [BLeaf.ttok] at ht
-       simp [tVal, ht, visitKey, valCoreG, binSem, valLeaf, leafPrim, Except.map, enumVal])
+       simp [tVal, ht, visitKey, valCoreG, binSem, valLeaf, u16Leaf, u16Tok, leafPrim, Except.map, enumVal])
 
 /-- an rgb block in value position. -/
 theorem tape_rgb_all (c : Cfg) (tape : List TTok) (f : Nat) (core : Ty) (h : NotOpt core) (col : Rgb) (idx : Nat)
     (ht : tape[idx]? = some (.rgb col)) (hfit : fitsN c (.rgb col) core = true) :
     tVal c tape (f + 1) core idx = valCoreG (binSem c) (.rgb col) core := by
   cases core <;> simp [NotOpt] at h <;> simp [fitsN, stripOpt] at hfit <;>
-    simp [tVal, ht, valCoreG, binSem, colorVisit, visitKey]
+    simp [tVal, ht, valCoreG, binSem, colorVisit, visitKey, u16Tok]
 
 theorem lift_ty (c : Cfg) (tape : List TTok) (idx : Nat) (n : BNode)
     (hcore : ∀ core f, NotOpt core → fitsN c n core = true → ntN n + tySize core ≤ f →
@@ -284,7 +284,7 @@ theorem tv_node (c : Cfg) (n : BNode) : ∀ (tape pre suf : List TTok) (core : T
         cases g with
         | zero => simp [tySize] at hb; omega
         | succ g' => simp [tStruct]
-    | _ => simp [tVal, htok, valCoreG]
+    | _ => simp [tVal, htok, valCoreG, u16Tok]
   | obj fs =>
     have hlen := len_fields fs (pre.length + 1)
     simp only [ntN] at hb
@@ -307,7 +307,7 @@ theorem tv_node (c : Cfg) (n : BNode) : ∀ (tape pre suf : List TTok) (core : T
         cases g with
         | zero => simp [tySize] at hb; omega
         | succ g' => simp [tStruct]
-      | _ => simp [tVal, htok, valCoreG]
+      | _ => simp [tVal, htok, valCoreG, u16Tok]
     | cons gh k v rest =>
       have htok : tape[pre.length]? = some (.object (pre.length + 1 + ntF (.cons gh k v rest))) := by
         rw [htape]; exact get_mid pre suf _ _ _ (by simp only [tapeNode, hlen]; rfl)
@@ -331,7 +331,7 @@ theorem tv_node (c : Cfg) (n : BNode) : ∀ (tape pre suf : List TTok) (core : T
         simp only [fitsN, stripOpt] at hfit
         simp only [tVal, htok, valCoreG]
         exact hst decl (slotsInit decl) (by simp [slotsInit]) hfit (by simp [tySize] at hb; omega)
-      | _ => simp [tVal, htok, valCoreG]
+      | _ => simp [tVal, htok, valCoreG, u16Tok]
 theorem tv_seq (c : Cfg) (vs : BNodes) : ∀ (tape pre suf : List TTok) (et : Ty) (f : Nat) (acc : List String),
     tape = pre ++ tapeNodes vs pre.length ++ suf → fitsNs c vs et = true → ntS vs + tySize et + 1 ≤ f →
     tSeq c tape f et pre.length (pre.length + ntS vs) acc = valNodesG (binSem c) vs et acc := by
